@@ -162,4 +162,39 @@ theorem scan_leaf {recs : List Rec3} {dl : Nat} :
       · simpa using scan_leaf rest (i + 1) _ (scan_cons_node hr h).2.2.2.2 k (by simpa using hk) hn'
       · simpa using scan_leaf rest (i + 1) _ (scan_cons_leaf hr h).2 k (by simpa using hk) hn'
 
+/-! ### the two halves of `validate` -/
+
+theorem validate_scan {recs : List Rec3} {dl : Nat} (h : validate recs dl = true) : scan recs dl recs 0 1 = true := by
+  unfold validate at h
+  rw [Bool.and_eq_true] at h
+  exact h.1
+
+/-- the syllable field of every node record other than the root is a valid syllable code -/
+theorem validate_syls {recs : List Rec3} {dl : Nat} (h : validate recs dl = true) :
+    ∀ j, 0 < j → j < recs.length → sylAt recs j ≠ 0 → validCode (sylAt recs j) = true := by
+  unfold validate at h
+  rw [Bool.and_eq_true] at h
+  have hs := h.2
+  unfold sylsOk at hs
+  rw [List.all_eq_true] at hs
+  intro j hj hl hz
+  have hm : recs[j] ∈ recs.drop 1 := by
+    rw [List.mem_drop_iff_getElem]
+    exact ⟨j - 1, by omega, by congr 1; omega⟩
+  have := hs _ hm
+  have e : sylAt recs j = recs[j].2.2 := by
+    unfold sylAt
+    simp [List.getD_eq_getElem?_getD, List.getElem?_eq_getElem hl]
+  rw [e] at hz ⊢
+  simpa [hz] using this
+
+theorem validate_intro {recs : List Rec3} {dl : Nat} (h1 : scan recs dl recs 0 1 = true)
+    (h2 : ∀ r ∈ recs.drop 1, r.2.2 ≠ 0 → validCode r.2.2 = true) : validate recs dl = true := by
+  unfold validate sylsOk
+  rw [Bool.and_eq_true, List.all_eq_true]
+  refine ⟨h1, fun r hr => ?_⟩
+  by_cases hz : r.2.2 = 0
+  · simp [hz]
+  · simp [h2 r hr hz]
+
 end Chewing.TrieValidate
